@@ -1,4 +1,4 @@
-import BevySyncModel.Proofs.Ent
+import BevySyncModel.Proofs.EntDel
 import BevySyncModel.Generated.Filter
 import BevySyncModel.Generated.Ent
 /-! # C01 — every peer converges to the same set of synchronized entities
@@ -10,6 +10,14 @@ the uuid), which the trace correspondence checks per uuid on every run. -/
 namespace BevySync
 namespace Props
 open Ent
+
+/-- (for the examples) a run from `s` is admissible, ends drained and everybody has lost the replica -/
+def s_ok (s : State) (as : List Act) : Prop :=
+  as.all (fun a => match a with | .markH | .markC _ => false | _ => true) = true ∧
+  (run s as).host.count = 0 ∧ (run s as).clients.map (·.p.count) = [0, 0] ∧
+  (run s as).clients.all (fun c => c.up.isEmpty && c.down.isEmpty) = true
+
+instance (s : State) (as : List Act) : Decidable (s_ok s as) := by unfold s_ok; infer_instance
 
 /-- (tie) creation reacts to `Added<SyncMark>` only (regenerated from both `track.rs`) -/
 theorem C01_created_tie : Generated.createdOnlyOnSyncMark = true := by decide
@@ -45,19 +53,41 @@ theorem C01_host_origin_invariant (s : State) (as : List Act) (hi : HSp s) (ha :
 theorem C01_client_origin_invariant (w : Nat) (s : State) (as : List Act) (hi : CSp w s)
     (ha : ∀ a ∈ as, SpawnOnlyW w a) : CSp w (run s as) := csp_run w s as hi ha
 
-/-- **despawns — partial.**  Proved: the handlers' step laws that make concurrent and repeated deletes
-harmless — a delete for a uuid the peer does not hold (never known, already despawned, despawned by the
-peer itself) changes nothing; deletes are idempotent on host and client; a spawn for a uuid the client
-already holds live is ignored (no duplicate).  Missing: the unbounded convergence theorem for histories
-with despawns from arbitrary peers (`Quiescent → every connected peer holds none`); the per-uuid trace
-correspondence (model predicts count and tracker entry after every frame) and the oracle decide those
-histories on every run. -/
-theorem C01_delete_laws_partial (p : Peer) :
+/-- **C01, despawns.** From a state in which the host and every connected client hold the replica and nothing is in
+flight (where a spawn epoch ends), any peers — the host, any clients, several of them, crossing each other — may despawn it
+at any moment and clients may leave: for every schedule, once drained, all connected peers agree. As soon as the host or
+one connected client has lost the entity everybody has; nobody ever holds two; a peer that lost it no longer tracks it. -/
+theorem C01_despawns_converge (s : State) (as : List Act) (h0 : Live s) (ha : ∀ a ∈ as, NoMark a)
+    (hq : Quiescent (run s as)) :
+    ((run s as).host.count = 0 → ∀ c ∈ (run s as).clients, c.connected = true → c.p.count = 0) ∧
+    (∀ c ∈ (run s as).clients, c.connected = true → c.p.count = 0 →
+        (run s as).host.count = 0 ∧ ∀ c' ∈ (run s as).clients, c'.connected = true → c'.p.count = 0) ∧
+    (run s as).host.count ≤ 1 ∧ (∀ c ∈ (run s as).clients, c.connected = true → c.p.count ≤ 1) :=
+  del_agreement _ (delinv_run s as (live_delinv s h0) ha) hq
+
+/-- the invariant behind it, for every reachable state: every message in flight is a delete; a peer that no longer
+tracks the uuid holds nothing; when the host is gone every connected client is dead or has a delete on its way; a client
+that is gone has told the host (or the host is dead already) -/
+theorem C01_despawn_invariant (s : State) (as : List Act) (hi : DelInv s) (ha : ∀ a ∈ as, NoMark a) :
+    DelInv (run s as) := delinv_run s as hi ha
+
+/-- the step laws the handlers obey: a delete for a uuid the peer does not hold changes nothing; deletes are idempotent
+on host and client; a spawn for a uuid the client already holds live is ignored (no duplicate) -/
+theorem C01_delete_laws (p : Peer) :
     (p.tracked = false ∨ p.count = 0 → clientRecv p .delete = p) ∧
     clientRecv (clientRecv p .delete) .delete = clientRecv p .delete ∧
     (hostRecv (hostRecv p .delete).1 .delete).1 = (hostRecv p .delete).1 ∧
     (p.tracked = true → p.count > 0 → clientRecv p .spawn = p) :=
   ⟨clientRecv_delete_unknown p, clientRecv_delete_idem p, hostRecv_delete_idem p, clientRecv_spawn_dup p⟩
+
+/-- the hypotheses are met where the spawn theorems end: host + two clients holding the replica, client 1 and the host
+despawn in the same breath, client 2 learns it twice -/
+example :
+    let live : State := State.mk (Peer.mk false 1 true true)
+      [Client.mk 1 (Peer.mk false 1 true true) [] [] true, Client.mk 2 (Peer.mk false 1 true true) [] [] true] 0 0
+    let as : List Act := [.despawnC 1, .despawnH, .removedH, .removedC 1, .pollH 1 1, .pollC 1 1, .pollC 2 2]
+    s_ok live as := by
+  decide
 
 /-- non-vacuity: a client-origin entity relayed to a second client; and a full life with crossing deletes -/
 def twoC : State := { clients := [{ id := 1 }, { id := 2 }] }
